@@ -1019,7 +1019,7 @@ class FloatShim(_RatLike):
             elif has_token(x):
                 raise Unsupported("token embedded in a longer numeric string: %r" % x)
             else:
-                v = _norm(RealFraction(RealDecimal(x.strip())))
+                v = _norm(RealFraction(float(x)))  # parsing text yields the nearest double, exactly as CPython's float(str)
         else:
             v = term_of(x)
             nd = nd_of(x)
